@@ -21,8 +21,9 @@ from props import solver_common as sc
 
 ID = 'C04'
 PROPS_FILE = 'Props/C04.v'
-MODEL_FILES = ['Solver/Solver.v', 'Solver/SolverF.v', 'Eval/Eval.v', 'Eval/EvalF.v', 'Fortran/FSolve.v', 'Eval/EvalK2.v']
-PREAMBLE2 = em.PREAMBLE + 'Require Import Fsic.Fortran.FSem Fsic.Fortran.FSolve Fsic.Eval.EvalK2.\n'
+MODEL_FILES = ['Solver/Solver.v', 'Solver/SolverF.v', 'Eval/Eval.v', 'Eval/EvalF.v', 'Fortran/FSolve.v', 'Solver/SolveAll.v',
+               'Eval/EvalSolveAll.v', 'Eval/EvalK2.v']
+PREAMBLE2 = em.PREAMBLE + 'Require Fsic.Fortran.FSolve.\nRequire Import Fsic.Eval.EvalK2.\n'
 K_NAME = ('K_access (Eval.eval_pass / Eval.solve_seq_M on PrimFloat vs the real generated _evaluate, solve_t and solve of '
           'parser-built models: values, status, iterations, outcome, hook events, access sequence of every pass; second engine: '
           'Fortran/FSolve.w_solve_t vs the real FortranEngine.solve_t over gfortran-compiled code on every call that ends before '
@@ -31,18 +32,23 @@ RULE = ('C01-grammar scripts (1-3 equations, lags/leads <= 3, parameters, errors
         'conditional expressions with and/or/not, exp/log, occasionally an indexed left-hand side) x span lengths '
         'LAGS+LEADS+1 .. +4 x (a) _evaluate(t) at every t in both spellings, wrapped ones included, (b) solve_t(t) at every '
         't in both spellings incl. the infeasible ones, with and without offset (in / out of span), min/max_iter guard, '
-        'pre-existing NaN/inf, all error modes, (c) solve() for every start/end choice incl. defaults. thorough adds the '
+        'pre-existing NaN/inf, all error modes, (c) solve() for every start/end choice incl. defaults (model side: the entry-point '
+        'model SolveAll.solve_M incl. iter_periods), (d) the Fortran engine (gfortran-compiled) for solve_t at every t in both '
+        'spellings and solve(): oracle on all, K on the calls that end before the compiled loop. thorough adds the '
         'exhaustive space of all programs of <= 2 equations with <= 2 right-hand terms over 4 names and offsets -1..1. '
         'Non-trivial = at least one evaluation pass executed on the real model or an up-front rejection observed; distinct '
         'by hash of the whole case.')
 TRUSTED = ['harness/evalmodel.py: ast-based translator of the generated _evaluate body into the Coq AST (fail-closed), recording '
            'ndarray subclass, probe subclass of the generated class',
            'NumPy index normalisation (index i < 0 is served at i + len) is how "position served" is derived from the recorded index',
-           'oracle table for np.exp / np.log / ** values (no kernel primitive): recorded by a reference evaluation of each pass']
+           'oracle table for np.exp / np.log / ** values (no kernel primitive): recorded by a reference evaluation of each pass',
+           'harness/fortran_ctypes.py + gfortran stand in for the f2py-built extension module of the Fortran engine (arguments passed as f2py passes them)']
 ASSUMPTIONS = ['parser-built model without verbatim code; solve_t_before / solve_t_after are the template\'s `pass`',
                'every variable array has the span\'s length (container invariant, C09)',
                'the instance-level lags / leads are at least the deepest lag / furthest lead of the equations (C03)',
-               't lies inside the span (-n <= t < n)']
+               't lies inside the span (-n <= t < n)',
+               'entry-point theorems (solve / iter_periods, model Solver/SolveAll.v): every label of the span resolves to its own position (locate_ok; true of spans without repeated labels)',
+               'Fortran engine (model Fortran/FSolve.v): the lags / leads compiled into the module are the instance-level ones; the values matrix is rectangular with one column per period']
 EXHAUSTIVE = {'quick': False, 'thorough': True}
 CASE_TIMEOUT = 30
 MAX_PASSES_K = 3            # evaluation passes compared one by one (store before / after / exception / access sequence)
@@ -109,13 +115,17 @@ def gen_expr(rng, depth, ctx):
             ctx['reads'].append([name, k])
             return _term(name, k)
         if q < 0.74:
+            # parameters and errors carry lags / leads too (they count towards LAGS / LEADS like any variable)
             name = rng.choice(PAR)
-            k = -1 if (L and rng.random() < 0.1) else 0
+            u = rng.random()
+            k = -rng.randint(1, L) if (L and u < 0.25) else (rng.randint(1, Ld) if (Ld and u < 0.35) else 0)
             ctx['reads'].append([name, k])
             return _term(name, k, 'p')
         if q < 0.8:
-            ctx['reads'].append(['e', 0])
-            return _term('e', 0, 'e')
+            u = rng.random()
+            k = -rng.randint(1, L) if (L and u < 0.25) else (rng.randint(1, Ld) if (Ld and u < 0.35) else 0)
+            ctx['reads'].append(['e', k])
+            return _term('e', k, 'e')
         return rng.choice(['0', '1', '2', '3', '0.5', '1.25', '2.0', '0.1', '10'])
     sub = lambda: gen_expr(rng, depth - 1, ctx)  # noqa: E731
     if r < 0.62:
@@ -161,6 +171,13 @@ def gen_prog(rng):
         if rng.random() < 0.1 and (L or Ld):
             k = rng.choice([x for x in range(-L, Ld + 1) if x != 0])
         rhs = gen_expr(rng, rng.choice([1, 2, 2, 3]), ctx)
+        if y == lhs_vars[-1] and rng.random() < 0.2:
+            # the deepest lag / furthest lead of the whole script sits on a parameter or an error term ONLY
+            nm, kind = rng.choice([('a', 'p'), ('b', 'p'), ('e', 'e')])
+            kk = -(L + 1) if rng.random() < 0.5 else Ld + 1
+            if abs(kk) <= 3:
+                ctx['reads'].append([nm, kk])
+                rhs = '%s + %s' % (rhs, _term(nm, kk, kind))
         p.lines.append('%s = %s' % (_term(y, k), rhs))
         p.eqs.append({'lhs': [y, k], 'reads': ctx['reads']})
     return p
@@ -220,7 +237,7 @@ def cases_for_program(rng, p, tier, heavy=True):
         data = gen_data(rng, names, n, wild)
         # (a) _evaluate at every t, both spellings (wrapped reads included: the model must wrap exactly like NumPy)
         for t in range(-n, n):
-            if heavy and rng.random() < 0.5:
+            if rng.random() < (0.5 if heavy else 0.65):
                 continue
             cases.append(base_case(p, n, data, 'evaluate', t, errors=rng.choice(['raise', 'raise', 'ignore']),
                                    catch_first_error=rng.random() < 0.6))
@@ -247,6 +264,8 @@ def cases_for_program(rng, p, tier, heavy=True):
             elif u < 0.5:
                 c2 = copy.deepcopy(c)
                 c2['opts']['min_iter'] = c2['opts']['max_iter'] + rng.choice([1, 2])
+                if rng.random() < 0.5:      # rejected for min/max_iter although an (in- or out-of-span) offset is given
+                    c2['opts']['offset'] = rng.choice([-1, 1, -1, 1, -pp - 1, n - pp])
                 cases.append(c2)
             elif u < 0.65:
                 c2 = copy.deepcopy(c)
@@ -267,8 +286,8 @@ def cases_for_program(rng, p, tier, heavy=True):
         # (c) solve() for every start / end choice
         choices = [None] + list(range(n))
         pairs = list(itertools.product(choices, choices))
-        if heavy and tier == 'quick':
-            pairs = [(None, None)] + rng.sample(pairs, min(len(pairs), 6))
+        if heavy:
+            pairs = [(None, None)] + rng.sample(pairs, min(len(pairs), 6 if tier == 'quick' else 16))
         elif not heavy:
             pairs = [(None, None), (0, None), (None, n - 1)]
         for a, b in pairs:
@@ -277,6 +296,8 @@ def cases_for_program(rng, p, tier, heavy=True):
             c['start'], c['end'] = a, b
             if heavy and rng.random() < 0.15:
                 c['opts']['offset'] = rng.choice([-1, 1])
+            if heavy and rng.random() < 0.05:
+                c['opts']['min_iter'] = c['opts']['max_iter'] + 1
             cases.append(c)
         # (d) the Fortran engine (frame / rejection / feasibility clauses; conditionals are not Fortran)
         if heavy and n == lens[0] and ' if ' not in '\n'.join(p.lines):
@@ -299,6 +320,8 @@ def cases_for_program(rng, p, tier, heavy=True):
                 elif u < 0.5:
                     c2 = copy.deepcopy(c)
                     c2['opts']['min_iter'] = c2['opts']['max_iter'] + 1
+                    if rng.random() < 0.5:
+                        c2['opts']['offset'] = rng.choice([-1, 1])
                     cases.append(c2)
             for a, b in [(None, None), (0, None), (None, n - 1)]:
                 c = base_case(p, n, data, 'solve', 0, max_iter=2, failures='ignore', errors='raise')
@@ -351,6 +374,24 @@ def fixed_cases():
     d2 = copy.deepcopy(data)
     d2['Y'][1] = 'nan'
     out.append(base_case(p, 4, d2, 'solve_t', 2, offset=-1))
+    # rejected for min_iter > max_iter with an in-span offset: nothing may have been copied
+    out.append(base_case(p, 4, data, 'solve_t', 2, offset=-1, min_iter=1, max_iter=0))
+    out.append(base_case(p, 4, data, 'solve_t', -2, offset=1, min_iter=3, max_iter=2))
+    # the deepest lag / furthest lead carried by a parameter / an error term only
+    r = Prog()
+    r.lines = ['C = {a}[-2] * X[-1]']
+    r.eqs = [{'lhs': ['C', 0], 'reads': [['a', -2], ['X', -1]]}]
+    d3 = {'C': data['Y'], 'X': data['X'], 'a': [lib.fhex(x) for x in (2.0, 3.0, 4.0, 5.0)]}
+    for t in (1, -3, 2, -2):
+        out.append(base_case(r, 4, d3, 'solve_t', t, max_iter=2))
+    out.append(base_case(r, 4, d3, 'solve', 0))
+    r = Prog()
+    r.lines = ['C = X + <e>[2]']
+    r.eqs = [{'lhs': ['C', 0], 'reads': [['X', 0], ['e', 2]]}]
+    d4 = {'C': data['Y'], 'X': data['X'], 'e': [lib.fhex(x) for x in (0.5, 0.25, 0.125, 1.0)]}
+    for t in (2, -2, 3, -1, 1):
+        out.append(base_case(r, 4, d4, 'solve_t', t, max_iter=2))
+    out.append(base_case(r, 4, d4, 'solve', 0))
     q = Prog()
     q.lines = ['Y = X[1] + Y[-1]']
     q.eqs = [{'lhs': ['Y', 0], 'reads': [['X', 1], ['Y', -1]]}]
@@ -362,7 +403,7 @@ def fixed_cases():
 
 def gen(rng, tier):
     cases = fixed_cases()
-    nprog = 45 if tier == 'quick' else 500
+    nprog = 45 if tier == 'quick' else 250
     for _ in range(nprog):
         cases += cases_for_program(rng, gen_prog(rng), tier)
     if tier == 'thorough':
@@ -548,19 +589,25 @@ def k_items(case, obs):
         items.append('(KP (mkP %s %s %s %s %s %s %s %s))' % (
             em.c_table(r['table']), prog, lib.cbool(r['catch']), lib.cZ(r['t']), em.c_vals(r['before']), em.c_vals(r['after']), exc,
             lib.clist(em.c_access(a, n) for a in r['log'])))
-    if case['entry'] in ('solve_t', 'solve') and obs['table_complete']:
-        if case['entry'] == 'solve_t':
-            ts = lib.clist([lib.cZ(case['t'])])
-        elif case['start'] is None and case['end'] is None:
-            ts = '(default_positions %s %d%%nat)' % (_c_desc(obs), n)
-        else:
-            a = case['start'] if case['start'] is not None else obs['lags']
-            b = case['end'] if case['end'] is not None else n - 1 - obs['leads']
-            ts = '(positions %s %s)' % (lib.cZ(a), lib.cZ(b))
+    if case['entry'] == 'solve_t' and obs['table_complete']:
         items.append('(KS (mkS %s %s %s %s %s %s %s %s))' % (
-            em.c_table(table), prog, _c_desc(obs), sc.c_opts(case['opts']), ts,
+            em.c_table(table), prog, _c_desc(obs), sc.c_opts(case['opts']), lib.clist([lib.cZ(case['t'])]),
             _c_state(obs['before'], case['status0'], case['iters0'], []),
             _c_state(obs['after'], obs['status'], obs['iters'], obs['events']), _c_out(obs['out'])))
+    items = ['(K2 (K1 %s))' % it for it in items]
+    if case['entry'] == 'solve' and obs['table_complete']:
+        # the real entry point: SolveAll.solve_M (min/max_iter test, label lookup, iter_periods, the loop) — labels 'p<i>' are i
+        out = obs['out']
+        if out[0] == 'ret':
+            c_out = '(Ret (%s, %s, %s))' % (lib.clist(lib.cbool(b) for b in out[1]), lib.clist(lib.cZ(i) for i in out[2]),
+                                            lib.clist(lib.cZ(int(x[1:])) for x in out[3]))
+        else:
+            c_out = _c_out(out)
+        opt = lambda x: 'None' if x is None else '(Some %s)' % lib.cZ(x)  # noqa: E731
+        items.append('(KE (mkE %s %s %s %s %d%%nat %s %s %s %s %s))' % (
+            em.c_table(table), prog, _c_desc(obs), sc.c_opts(case['opts']), n, opt(case['start']), opt(case['end']),
+            _c_state(obs['before'], case['status0'], case['iters0'], []),
+            _c_state(obs['after'], obs['status'], obs['iters'], obs['events']), c_out))
     return items
 
 
@@ -594,7 +641,7 @@ def k_item_fortran(case, obs):
         c_out = '(Raise (SolutionError %s))' % ('None' if out[2] is None else '(Some 99)')
     else:
         c_out = '(Raise %s)' % {'FortranEngineError': 'FortranEngineError'}.get(out[1], sc.EXN.get(out[1], 'OtherError'))
-    fm = '(mkFmod %s %s %s)' % (lib.cZ(obs['lags']), lib.cZ(obs['leads']), lib.clist(lib.cZ(i + 1) for i in obs['endo']))
+    fm = '(FSolve.mkFmod %s %s %s)' % (lib.cZ(obs['lags']), lib.cZ(obs['leads']), lib.clist(lib.cZ(i + 1) for i in obs['endo']))
     return '(KF (mkF %s %s %s %s %s %s %s))' % (
         fm, _c_desc(obs), sc.c_opts(case['opts']), lib.cZ(case['t']),
         _c_state(obs['before'], case['status0'], case['iters0'], []),
@@ -610,7 +657,7 @@ def correspond(cases, obs, tag, tier):
             continue
         if o.get('engine') == 'fortran':
             if fortran_upfront(c, o):
-                items.append(k_item_fortran(c, o))
+                items.append('(K2 %s)' % k_item_fortran(c, o))
                 owner.append(i)
             continue
         its = k_items(c, o)
@@ -618,9 +665,9 @@ def correspond(cases, obs, tag, tier):
             bad.append(i)          # an access with a non-integer index: outside the model altogether
             continue
         for it in its:
-            items.append('(K1 %s)' % it)
+            items.append(it)
             owner.append(i)
-    b, errs = lib.run_coq_cases(tag, PREAMBLE2, items, 'bad_indices check_kcase2 0%nat cs', shard=250)
+    b, errs = lib.run_coq_cases(tag, PREAMBLE2, items, 'bad_indices check_kcase3 0%nat cs', shard=250)
     return sorted(set(bad) | {owner[j] for j in b}), errs
 
 
@@ -635,7 +682,12 @@ def explain(case, obs):
     its = k_items(case, obs) or []
     out = []
     for it in its[-2:]:
-        if it.startswith('(KP '):
+        if it.startswith('(K2 (K1 '):
+            it = it[8:-2]
+        if it.startswith('(KE '):
+            body = it[4:-1]
+            out.append(lib.coq_eval('explain_C04', PREAMBLE2, 'let c := %s in (let span := map Z.of_nat (seq 0 (e_n c)) in F_solve_P (e_tab c) span (e_prog c) (e_desc c) (e_opts c) span (e_start c) (e_end c) (e_state c))' % body)[-2500:])
+        elif it.startswith('(KP '):
             body = it[4:-1]
             out.append(lib.coq_eval('explain_C04', em.PREAMBLE, 'let c := %s in (f_eval_pass (p_tab c) (p_catch c) (p_prog c) (p_t c) (p_v c))' % body)[-1500:])
         else:
